@@ -92,6 +92,8 @@ Calls ==
     Call("rmtsec", <<>>, "t", 0, "a", <<>>),    Call("rmtsec", <<>>, "t", 0, "zz", <<>>),
     Call("rmtsec", <<>>, "m", 0, "a", <<>>),
     Call("rmtsec", <<>>, "t", 0, "A", <<>>),    Call("addtsec", <<>>, "t", 0, "A", <<>>),
+    (* the single section removed, and created again through the API *)
+    Call("rmnsec", <<>>, "sec", 0, "", <<>>),   Call("addtsec", <<>>, "sec", 0, Null, <<>>),
     Call("setint", <<[oi |-> 14, ii |-> 1]>>, "x", 0, "6", <<>>),
     Call("setint", T1, "x", 0, "8", <<>>),      Call("addlist", T1, "tl", 0, "", <<"z">>),
     Call("setint", SEC, "x", 0, "6", <<>>),     Call("addlist", SEC, "l", 0, "", <<"1">>),
